@@ -511,7 +511,7 @@ def replay(pid, path, repo):
     fi = d.get('failing_input')
     if fi and fi.get('found'):
         import replay_engine
-        return replay_engine.rerun(pid, fi, repo)
+        return replay_engine.rerun(pid, fi, repo, path)
     print('replay file names obligation(s) only (no concrete input): re-running the check')
     scratch = '/var/tmp/itree-verif.replay.%d' % os.getpid()
     os.makedirs(scratch, exist_ok=True)
